@@ -27,6 +27,15 @@ def parse_one(api, parser_objs, blob):
     if api == 'kdbuf':
         p = KdBufParser(tp, pn)
         items = list(p.parse(BudgetReader(blob)))
+    elif api == 'kdbuf-own':
+        # a parser constructed without tables owns fresh ones: they must hold this file's map and nothing else
+        p = KdBufParser()
+        items = list(p.parse(BudgetReader(blob)))
+        tp.clear(); tp.update(p.threads_pids)
+        pn.clear(); pn.update(p.pids_names)
+        other = KdBufParser()
+        if other.threads_pids or other.pids_names:
+            raise Violation('fresh-parser-not-empty', f'a newly constructed KdBufParser() already holds {dict(other.threads_pids)} / {dict(other.pids_names)}')
     else:
         items = list(pk.kevents(BudgetReader(blob)))
     return items
@@ -79,7 +88,7 @@ PROPS = {'history': prop_history}
 def strategy():
     n = st.integers(1, 4)
     return n.flatmap(lambda k: st.fixed_dictionaries({
-        'apis': st.lists(st.sampled_from(['kdbuf', 'pykdebug']), min_size=k, max_size=k),
+        'apis': st.lists(st.sampled_from(['kdbuf', 'pykdebug', 'kdbuf', 'pykdebug', 'kdbuf-own']), min_size=k, max_size=k),
         'files': st.lists(files.v2_spec(), min_size=k, max_size=k),
         'stale': st.booleans(),
     }))
